@@ -44,7 +44,7 @@ void sim_errno_leave() { if (!t_suspend) t_sut_errno = errno; }
 
 static std::unordered_map<void *, LedRec> &led() { if (!g_led) g_led = new std::unordered_map<void *, LedRec>(); return *g_led; }
 
-void sim_alloc_reset() { led().clear(); t_op = OpAlloc{0, 0, 0, 0, 0}; }
+void sim_alloc_reset() { led().clear(); t_op = OpAlloc{0, 0, 0, 0, 0}; t_suspend = 0; }     // (a call aborted by the step budget may have left the suspension on)
 void sim_op_begin(int tag, int fk, int fm) { t_op = OpAlloc{tag, fk, fm, 0, 0}; }
 int sim_op_end() { int c = t_op.count; t_op.fk = 0; t_op.fm = 0; return c; }
 int sim_op_allocs() { return t_op.count; }
@@ -80,7 +80,13 @@ static bool alloc_gate() {
     }
     return false;
 }
-static void led_add(void *p, size_t n) { if (p) led()[p] = LedRec{n, ++g_serial, t_op.tag}; }
+// A NULL from the real allocator for a modest size is the machine running out of memory, not an injected fault: the run
+// cannot be trusted any more. End like a starved process (harness error; the run is repeated in isolation).
+static void real_null(size_t n) {
+    if (n >= ((size_t)1 << 31)) return;       // an absurd size computed by the library itself fails naturally: that is its own business
+    static const char msg[] = "\nSTARVED (the real allocator returned NULL)\n"; ssize_t r = write(1, msg, sizeof msg - 1); (void)r; _exit(79);
+}
+static void led_add(void *p, size_t n) { if (p) led()[p] = LedRec{n, ++g_serial, t_op.tag}; else real_null(n); }
 
 extern "C" void *__wrap_malloc(size_t n) {
     if (!t_in_sut) return __real_malloc(n);
@@ -91,7 +97,7 @@ extern "C" void *__wrap_malloc(size_t n) {
 extern "C" void *__wrap_calloc(size_t a, size_t b) {
     if (!t_in_sut) return __real_calloc(a, b);
     if (alloc_gate()) return NULL;
-    t_in_sut = 0; void *p = __real_calloc(a, b); led_add(p, a * b); t_in_sut = 1;
+    t_in_sut = 0; size_t n; bool ovf = __builtin_mul_overflow(a, b, &n); void *p = __real_calloc(a, b); if (p || !ovf) led_add(p, n); t_in_sut = 1;
     return p;
 }
 extern "C" void *__wrap_realloc(void *q, size_t n) {
@@ -105,7 +111,7 @@ extern "C" void *__wrap_realloc(void *q, size_t n) {
     bool had = false; LedRec old{};
     if (q) { auto it = led().find(q); if (it != led().end()) { had = true; old = it->second; led().erase(it); } }
     void *p = __real_realloc(q, n);
-    if (p) led_add(p, n); else if (had && n != 0) led()[q] = old;
+    if (p) led_add(p, n); else { if (had && n != 0) led()[q] = old; if (n != 0) real_null(n); }
     t_in_sut = 1;
     return p;
 }
@@ -205,7 +211,7 @@ int sim_take_depth_change() { int d = t_depth_change; t_depth_change = 0; return
 int sim_self() { return t_self; }
 uint64_t sim_event() { return ++g_event; }
 int sim_lock_depth() { return t_self >= 0 ? T[t_self].depth : g_main_depth; }
-void sim_lock_depth_reset() { if (t_self >= 0) T[t_self].depth = 0; else g_main_depth = 0; g_nm = 0; }
+void sim_lock_depth_reset() { if (t_self >= 0) T[t_self].depth = 0; else g_main_depth = 0; g_nm = 0; t_depth_change = 0; }
 bool sim_poisoned() { return g_poison; }
 
 static MRec *mrec(pthread_mutex_t *m, bool create) {
@@ -257,7 +263,8 @@ static int pick(int self) {
     g_dec[g_ndec++] = choice;
     if (choice < 0) {
         int w = -(choice + 1);
-        T[w].stall_budget = 5003;      // enough to exhaust one MAX_MUTEX_LOCK_WAIT round and force-unlock once
+        T[w].stall_budget = 2 * 5000 + 8;      // every attempt of the spinning waiter passes two yield points (the failed trylock and the pause):
+                                              // enough to exhaust one MAX_MUTEX_LOCK_WAIT round and force-unlock once
         T[w].state = TS_RUN;           // it will spin and block again afterwards
         g_stalls++;
         return w;
@@ -403,7 +410,12 @@ void sim_run_threads(const SchedCfg &cfg, const std::vector<std::function<void()
     g_main_go.store(0);
     g_active = true;
     pthread_attr_t at; pthread_attr_init(&at); pthread_attr_setstacksize(&at, 1 << 20);
-    for (int i = 0; i < NT; i++) pthread_create(&T[i].th, &at, thread_main, (void *)(intptr_t)i);
+    for (int i = 0; i < NT; i++) {
+        if (pthread_create(&T[i].th, &at, thread_main, (void *)(intptr_t)i) != 0) {
+            // the environment refuses another thread: not a verdict, end like a starved process (harness error, run is repeated in isolation)
+            static const char msg[] = "\nSTARVED (pthread_create failed)\n"; ssize_t r = write(1, msg, sizeof msg - 1); (void)r; _exit(79);
+        }
+    }
     pthread_attr_destroy(&at);
     int first = cfg.lockstep ? 0 : pick(-1);
     if (first < 0) first = 0;
@@ -492,6 +504,6 @@ void __tsan_on_report(void *report) {
     g_races++;
     if (!g_race_buf[0]) snprintf(g_race_buf, sizeof g_race_buf, "%s: %s", desc ? desc : "", where);
 }
-const char *__tsan_default_options() { return "halt_on_error=0:report_signal_unsafe=0:exitcode=0:second_deadlock_stack=0"; }
+const char *__tsan_default_options() { return "halt_on_error=0:report_signal_unsafe=0:exitcode=0:second_deadlock_stack=0:suppress_equal_stacks=0:suppress_equal_addresses=0"; }
 }
 #endif
